@@ -114,6 +114,8 @@ class Worker:
         self.proc = None
         self.pos = 0
         self.last_progress = time.time()
+        self.resume = None
+        self.next_seed, self.remaining = 0, 0
 
     def start(self, extra):
         env = dict(os.environ)
@@ -123,6 +125,18 @@ class Worker:
         self.proc = subprocess.Popen([self.build.bin, '-test.run', 'TestSim', '-test.timeout', '0'], env=env,
                                      stdout=subprocess.DEVNULL, stderr=subprocess.DEVNULL, cwd=self.build.dir)
         self.last_progress = time.time()
+
+    def account(self, r):
+        """Tracks which seed the next process has to start from (enumeration emits many results per seed)."""
+        if 'seed' not in r:
+            return
+        if r.get('last', True):
+            done = r['seed'] - self.next_seed + 1
+            self.remaining -= done
+            self.next_seed = r['seed'] + 1
+            self.resume = None
+        else:
+            self.resume = f"{r.get('enum_pos', 0)}:{r.get('enum_variant', 0)}"
 
     def read_new(self):
         res = []
@@ -176,23 +190,20 @@ def run_seeds(build, scenario, start, count, nproc=NPROC, env_extra=None, stall_
         for w in list(active):
             new = w.read_new()
             for r in new:
-                if 'seed' in r:
-                    done = r['seed'] - w.next_seed + 1
-                    w.remaining -= done
-                    w.next_seed = r['seed'] + 1
+                w.account(r)
                 results.append(r)
                 if on_result:
                     on_result(r)
             rc = w.proc.poll()
             if rc is not None:
                 for r in w.read_new():
-                    if 'seed' in r:
-                        done = r['seed'] - w.next_seed + 1
-                        w.remaining -= done
-                        w.next_seed = r['seed'] + 1
+                    w.account(r)
                     results.append(r)
                 if rc == 3 and w.remaining > 0:
-                    w.start({'SIM_SEEDS': f'{w.next_seed}:{w.remaining}'})  # dirty run: fresh process for the rest
+                    extra = {'SIM_SEEDS': f'{w.next_seed}:{w.remaining}'}  # dirty run: fresh process for the rest
+                    if w.resume is not None:
+                        extra['SIM_ENUM_RESUME'] = w.resume
+                    w.start(extra)
                     continue
                 if rc not in (0, 3):
                     tail = ''
@@ -252,7 +263,8 @@ def shrink_and_confirm(build, prop, scenario, res, viol, budget_s=90):
     path = os.path.join(VERIF, 'replays', f'{prop}-{res["seed"]}-{viol["kind"]}.json')
     rf = {'property': prop, 'kind': viol['kind'], 'message': viol['msg'], 'seed': res['seed'], 'scenario': scenario,
           'tapes': res['tapes'], 'original_tapes': res['tapes'], 'minimised': False, 'repo_tree': repo_tree_hash(),
-          'workload': (res.get('samples') or [None])[0], 'trace': res.get('trace'), 'schedule': res.get('sched')}
+          'workload': (res.get('samples') or [None])[0], 'trace': res.get('trace'), 'schedule': res.get('sched'),
+          'enum': bool(res.get('enum')), 'enum_pos': res.get('enum_pos', 0), 'enum_variant': res.get('enum_variant', 0)}
     json.dump(rf, open(path, 'w'), indent=1)
     # Confirm the un-minimised tapes replay in a fresh process first.
     rc, out = single(build, {'SIM_SCENARIO': scenario, 'SIM_REPLAY': path})
@@ -428,7 +440,9 @@ def _check(prop, tier, spec, base_seed, build, t0, runs_override):
         'repo_tree': repo_tree_hash(),
         'known_findings_hit': [k.get('id') for k, _, _ in known_hits],
         'violations_reported': [{'kind': k, 'replay': p, 'runs': n} for k, p, _, n in reported],
-        'exhaustive': False,
+        'exhaustive': bool(spec.get('exhaustive')) and not problems,
+        'enum_histories': len([1 for _, r in runs if r.get('enum') and r.get('enum_pos', 0) == -1]),
+        'enum_fault_runs': len([1 for _, r in runs if r.get('enum') and r.get('enum_pos', 0) != -1]),
     }
     zero = [p for p in spec.get('expect_probes', []) if probes.get(p, 0) == 0]
     if zero:
